@@ -181,6 +181,9 @@ func shortCallName(e *an.Expr) string {
 
 // acquisition functions whose result #0 is a socket-like resource.
 func isAcquire(cc *ssa.CallCommon) (string, bool) {
+	if _, ok := fieldLoadCall(cc, PkgSystem, "Dialer", "DialFunc"); ok {
+		return "DialFunc", true // a dialled DialContext (connection + autoconf state)
+	}
 	f := an.CalleeObj(cc)
 	if f == nil {
 		return "", false
@@ -233,6 +236,15 @@ func c11Typestate(c *Ctx) {
 						}
 					}
 				}
+				// errors.Is/As(<its error>, …) == true also means the acquisition failed
+				for _, a := range p.Atoms {
+					e := a.Cond
+					if a.Pos && e.Op == an.OpCall && e.Fn != nil && (e.Fn.String() == "errors.Is" || e.Fn.String() == "errors.As") && len(e.Args) >= 1 {
+						if b, idx := stripExtract(e.Args[0]); idx > 0 && sameValue(b, res) {
+							failed = true
+						}
+					}
+				}
 				if failed {
 					continue
 				}
@@ -244,6 +256,10 @@ func c11Typestate(c *Ctx) {
 						return
 					}
 					cc := ci.Common()
+					if fa, ok := fieldLoadCall(cc, PkgSystem, "DialContext", "done"); ok && p.Of(fa.X).String() == rs {
+						released = true
+						return
+					}
 					f := an.CalleeObj(cc)
 					if f == nil || f.Name() != "Close" {
 						return
